@@ -37,10 +37,13 @@ type harness struct {
 	// family and may stand in for a proof under contract drift. The scripted concurrency harnesses
 	// (H2, H8) only serve as witness searches for failed obligations.
 	StandIn bool
+	// Props: the properties whose statements the harness' reference model covers; it stands in only
+	// when one of these is being checked (H3 says nothing about connections a refused node keeps).
+	Props []string
 }
 
 var harnesses = []*harness{
-	{Name: "H1", File: "zz_gvc_h1_calls_test.go", Pkg: "", StandIn: true,
+	{Name: "H1", File: "zz_gvc_h1_calls_test.go", Pkg: "", StandIn: true, Props: []string{"C01", "C02", "C03", "C05", "C06", "C07", "C08", "C09", "C11", "C18"},
 		Funcs: regexp.MustCompile(`^\(RawConfiguration\)\.(QuorumCall|AsyncCall|handleAsyncCall|CorrectableCall|handleCorrectableCall|Multicast)$|^\(\*RawNode\)\.(Unicast|RPCCall)$|^getCallOptions$|^\(\*Async\)\.(Get|Done)$`),
 		Filter: func(fn string) map[string]string {
 			v := ""
@@ -61,16 +64,16 @@ var harnesses = []*harness{
 			return map[string]string{"GVC_H1": v}
 		},
 		Bound: "configurations of 1..3 nodes; every skip set of the per-node function; every reply/error/silent assignment; every arrival order; every quorum threshold"},
-	{Name: "H3", File: "zz_gvc_h3_config_test.go", Pkg: "", StandIn: true,
+	{Name: "H3", File: "zz_gvc_h3_config_test.go", Pkg: "", StandIn: true, Props: []string{"C14"},
 		Funcs: regexp.MustCompile(`^\((addConfig|nodeIDs|nodeList|nodeIDMap|addNodes)\)\.newConfig$|^\(RawConfiguration\)\.(Except|WithoutNodes|And|WithNewNodes|NodeIDs|Nodes|Size|Equal|contains)$|^\(\*RawManager\)\.(Node|AddNode|NodeIDs|Nodes|Size|sortNodes)$|^NewRawNode(WithID)?$|^NewRawConfiguration$`),
 		Bound: "pools of <= 4 nodes; all pairs of sub-configurations (tight and with spare capacity); id lists of length <= 3 over 6 ids; address maps and lists over 3 addresses"},
-	{Name: "H4", File: "zz_gvc_h4_correctable_test.go", Pkg: "", StandIn: true,
+	{Name: "H4", File: "zz_gvc_h4_correctable_test.go", Pkg: "", StandIn: true, Props: []string{"C11"},
 		Funcs: regexp.MustCompile(`^\(\*Correctable\)\.(set|Watch|Get|Done)$`),
 		Bound: "every contract-respecting sequence of <= 4 Watch/set operations over levels 0..3"},
-	{Name: "H5", File: "zz_gvc_h5_sorters_test.go", Pkg: "", StandIn: true,
+	{Name: "H5", File: "zz_gvc_h5_sorters_test.go", Pkg: "", StandIn: true, Props: []string{"C19", "C14"},
 		Funcs: regexp.MustCompile(`^\(\*MultiSorter\)\.(Less|Len|Swap|Sort)$|^OrderedBy$|^lemma C19\.|^var (ID|Port|LastNodeError)$|^(ID|Port|LastNodeError)$`),
 		Bound: "key lists of length <= 3 over ID/Port/LastNodeError; node lists of length <= 4 over a universe of 8 nodes"},
-	{Name: "H6", File: "zz_gvc_h6_errors_codec_test.go", Pkg: "", StandIn: true,
+	{Name: "H6", File: "zz_gvc_h6_errors_codec_test.go", Pkg: "", StandIn: true, Props: []string{"C02", "C06", "C07", "C08", "C13"},
 		Funcs: regexp.MustCompile(`^\(QuorumCallError\)\.(Is|Error)$|^WrapMessage$|^\(Codec\)\.|^\(\*Codec\)\.|^newMessage$|^NewCodec$`),
 		Bound: "4 causes x 4 targets; 4 handler errors; 18 codec round trips; 50 byte strings x 3 message kinds"},
 	{Name: "H2", File: "zz_gvc_h2_channel_test.go", Pkg: "",
